@@ -177,8 +177,7 @@ def run_shard(ctx: Ctx) -> None:
         allow = {"object_with_extras"} if x < 0.2 else ({"free_form_empty_schema"} if x < 0.4 else set())
         run_doc(ctx, {"doc": richgen.generate(ctx.rng, allow=allow), "n": ctx.shard * 100000 + 50000 + b, "phase": "rich"})
     # third workload: the exhaustive shape catalogue (every wrapper(wrapper(leaf)) up to two wrappers; thorough: three)
-    cat = list(enumerate(shapes.all_shapes(2 if ctx.quick else 3)))
-    chunks = [cat[i:i + 20] for i in range(0, len(cat), 20)]
+    chunks = shapes.chunked(2 if ctx.quick else 3, 20)
     for ci, chunk in enumerate(chunks):
         if ctx.mine(ci):
             run_doc(ctx, {"doc": shapes.document(chunk), "n": ctx.shard * 100000 + 70000 + ci, "phase": "shapes"})
